@@ -17,6 +17,7 @@ import (
 	"flag"
 	"fmt"
 	"os"
+	"runtime"
 	"strings"
 
 	"github.com/go-logr/logr"
@@ -25,6 +26,7 @@ import (
 
 	"github.com/nginx/nginx-gateway-fabric/internal/mode/static/nginx/config"
 	"github.com/nginx/nginx-gateway-fabric/internal/mode/static/state/dataplane"
+	"github.com/nginx/nginx-gateway-fabric/internal/mode/static/state/graph"
 	"github.com/nginx/nginx-gateway-fabric/internal/mode/static/state/resolver"
 	"github.com/nginx/nginx-gateway-fabric/verifharness/rng"
 )
@@ -128,10 +130,19 @@ func generate(cases []*Case) (inv500 bool, err error) {
 		blocks = append(blocks, rest[k:k+e+3])
 		rest = rest[k+e+2:]
 	}
+	if len(cases) == 1 && len(blocks) <= 1 {
+		// one group alone: whatever block exists (or none) is this group's; the judge decides
+		if len(blocks) == 0 {
+			blocks = append(blocks, "-")
+		}
+		if len(cases[0].W) <= 1 && blocks[0] == "-" {
+			blocks = nil
+		}
+	}
 	bi := 0
 	for i, c := range cases {
 		c.Block = "-"
-		if len(c.W) > 1 {
+		if len(c.W) > 1 || (len(cases) == 1 && len(blocks) == 1) {
 			if bi >= len(blocks) {
 				return false, fmt.Errorf("fewer split_clients blocks (%d) than groups needing a split", len(blocks))
 			}
@@ -200,40 +211,103 @@ func Run(args []string) int {
 	if *exh > 0 {
 		all = append(all, exhaustiveCases(*exh)...)
 	}
-	anomalies := 0
-	for s := 0; s < len(all); s += *batch {
+	weightCases(out, r)
+	// decorate sequentially (one random stream), generate the batches in parallel, print in order
+	type result struct {
+		lines     []string
+		anomalies int
+	}
+	nb := (len(all) + *batch - 1) / *batch
+	results := make([]chan result, nb)
+	sem := make(chan struct{}, max(1, min(12, runtime.GOMAXPROCS(0))))
+	for bi := 0; bi < nb; bi++ {
+		s := bi * *batch
 		e := min(s+*batch, len(all))
 		chunk := all[s:e]
 		decorate(r, chunk, s)
-		inv, err := generate(chunk)
-		if err != nil {
-			// retry one by one to isolate the offending case
-			for _, c := range chunk {
-				inv1, err1 := generate([]*Case{c})
-				if err1 != nil {
-					fmt.Fprintf(out, "X %s\t%s\n", esc(err1.Error()), c.input())
-					anomalies++
-					continue
+		ch := make(chan result, 1)
+		results[bi] = ch
+		sem <- struct{}{}
+		go func() {
+			defer func() { <-sem }()
+			var res result
+			inv, err := generate(chunk)
+			if err != nil {
+				// retry one by one to isolate the offending case
+				for _, c := range chunk {
+					inv1, err1 := generate([]*Case{c})
+					if err1 != nil {
+						res.lines = append(res.lines, fmt.Sprintf("X %s\t%s", esc(err1.Error()), c.input()))
+						res.anomalies++
+						continue
+					}
+					res.lines = append(res.lines, line(c, inv1))
 				}
-				emit(out, c, inv1)
+			} else {
+				for _, c := range chunk {
+					res.lines = append(res.lines, line(c, inv))
+				}
 			}
-			if anomalies > 12 {
-				fmt.Fprintf(out, "X too many anomalies, stopping\n")
-				return 0
-			}
-			continue
+			ch <- res
+		}()
+	}
+	anomalies := 0
+	for _, ch := range results {
+		res := <-ch
+		for _, l := range res.lines {
+			fmt.Fprintln(out, l)
 		}
-		for _, c := range chunk {
-			emit(out, c, inv)
+		anomalies += res.anomalies
+		if anomalies > 12 {
+			fmt.Fprintf(out, "X too many anomalies, stopping\n")
+			return 0
 		}
 	}
 	return 0
 }
 
-func emit(out *bufio.Writer, c *Case, inv bool) {
+func line(c *Case, inv bool) string {
 	i := 0
 	if inv {
 		i = 1
 	}
-	fmt.Fprintf(out, "%s\tblock=%s\tpp=%s\tinv500=%d\n", c.input(), esc(c.Block), c.PP, i)
+	return fmt.Sprintf("%s\tblock=%s\tpp=%s\tinv500=%d", c.input(), esc(c.Block), c.PP, i)
+}
+
+// weightCases runs the real createBackendRef (through the verif overlay) on absent, in-range and
+// out-of-range weights: `W in=<nil|int> svc=<0|1> out=<int> valid=<0|1>`.
+func weightCases(out *bufio.Writer, r *rng.R) {
+	vals := []int64{-2147483648, -1000001, -1000000, -2, -1, 0, 1, 2, 3, 999999, 1000000, 1000001, 1000002, 2147483647}
+	for i := 0; i < 40; i++ {
+		switch r.Intn(3) {
+		case 0:
+			vals = append(vals, int64(r.Range(0, maxW)))
+		case 1:
+			vals = append(vals, int64(maxW)+1+int64(r.Intn(1<<30)))
+		default:
+			vals = append(vals, -1-int64(r.Intn(1<<30)))
+		}
+	}
+	run := func(in string, w *int32, svc bool) {
+		defer func() {
+			if rec := recover(); rec != nil {
+				fmt.Fprintf(out, "X panic in createBackendRef: %v\tin=%s\n", rec, in)
+			}
+		}()
+		o, valid := graph.VerifC15BackendRefWeight(w, svc)
+		b2i := func(b bool) int {
+			if b {
+				return 1
+			}
+			return 0
+		}
+		fmt.Fprintf(out, "W\tin=%s\tsvc=%d\tout=%d\tvalid=%d\n", in, b2i(svc), o, b2i(valid))
+	}
+	for _, svc := range []bool{true, false} {
+		run("nil", nil, svc)
+		for _, v := range vals {
+			w := int32(v)
+			run(fmt.Sprint(w), &w, svc)
+		}
+	}
 }
